@@ -1,8 +1,8 @@
 #!/bin/bash
-# usage: verify_seed.sh <Cxx> <a|b>   - confirm a seeded change in its scratch worktree /tmp/seed/Cxx:
+# usage: [SEEDROOT=dir] verify_seed.sh <Cxx> <variant>   - confirm a seeded change in its scratch worktree /tmp/seed/Cxx:
 #   compiles (default + all features), existing suite passes with the change, demo fails with it and passes without it.
 ID=$1; V=$2
-W=/tmp/seed/$ID; O=$W/OUT/$V
+W=${SEEDROOT:-/tmp/seed}/$ID; O=$W/OUT/$V
 export CARGO_TARGET_DIR=$W/target CARGO_NET_OFFLINE=true
 cd $W || exit 2
 git checkout -q -- . ; rm -f tests/seed_demo.rs
